@@ -286,6 +286,8 @@ Print Assumptions C01_partition_unique_invariant_init.
 
 (* ---- generated by harness/mkprops_sync.py: begin ---- *)
 From SZ Require Sync.NodeSem2.
+From SZ Require Sync.Feedback.
+From SZ Require Sync.RefCount.
 Section G_sem_accumulate_full.
 Import SZ.Sync.NodeSem2.
 Theorem C01_sem_accumulate_full : forall (f : val -> val -> option val) (start : option val) (rs ws : bool) (s : nstate) (l : list arrival), fold_outs (KAccum f start rs ws) s l = scan_full f rs ws (st_acc s) l.
@@ -400,4 +402,81 @@ Theorem C01_zip_latest_lossless : forall arity : nat, 1 <= arity -> forall l pre
 Proof. exact (@zip_latest_lossless). Qed.
 End G_zip_latest_lossless.
 Print Assumptions C01_zip_latest_lossless.
+Section G_state_first_ok.
+Import SZ.Sync.RefCount.
+Import SZ.Sync.Feedback.
+Theorem C01_state_first_ok : forall k : kind, state_first_kindb k = true -> state_first k.
+Proof. exact (@state_first_ok). Qed.
+End G_state_first_ok.
+Print Assumptions C01_state_first_ok.
+Section G_zip_latest_not_state_first.
+Import SZ.Sync.RefCount.
+Import SZ.Sync.Feedback.
+Theorem C01_zip_latest_not_state_first : ~ state_first KZipLatest.
+Proof. exact (@zip_latest_not_state_first). Qed.
+End G_zip_latest_not_state_first.
+Print Assumptions C01_zip_latest_not_state_first.
+Section G_flush_state_first.
+Import SZ.Sync.RefCount.
+Import SZ.Sync.Feedback.
+Theorem C01_flush_state_first : forall s : nstate, state_first_acts (flush_actions s).
+Proof. exact (@flush_state_first). Qed.
+End G_flush_state_first.
+Print Assumptions C01_flush_state_first.
+Section G_push_state_fold_any_graph.
+Import SZ.Sync.RefCount.
+Import SZ.Sync.Feedback.
+Theorem C01_push_state_fold_any_graph : forall (g : list node) (fuel depth n : nat) (w : world) (x : val) (m : list mdi) (w' : world) (st : status), length (sts w) = length g -> push fuel g depth n w x m = (w', st) -> exists new : list entry, log w' = rev new ++ log w /\ length (sts w') = length g /\ (forall e : entry, In e new -> is_down g (e_src e) (e_dst e) = true /\ depth <= e_depth e) /\ (forall d : nat, d < length g -> state_first (nkind (gnode g d)) -> nst w' d = fold_state (nkind (gnode g d)) (nst w d) (arr g new d)).
+Proof. exact (@push_state_fold_any_graph). Qed.
+End G_push_state_fold_any_graph.
+Print Assumptions C01_push_state_fold_any_graph.
+Section G_exec_state_fold_any_graph.
+Import SZ.Sync.RefCount.
+Import SZ.Sync.Feedback.
+Theorem C01_exec_state_fold_any_graph : forall (g : graph) (fuel : nat) (evs : list event) (w : world) (st : status), exec_from fuel g (init_world g) evs = (w, st) -> emits_only evs -> forall d : nat, d < length g -> state_first (nkind (gnode g d)) -> nst w d = fold_state (nkind (gnode g d)) (init_st g d) (arr g (rev (log w)) d).
+Proof. exact (@exec_state_fold_any_graph). Qed.
+End G_exec_state_fold_any_graph.
+Print Assumptions C01_exec_state_fold_any_graph.
+Section G_exec_calls_along_edges_any_graph.
+Import SZ.Sync.RefCount.
+Import SZ.Sync.Feedback.
+Theorem C01_exec_calls_along_edges_any_graph : forall (g : graph) (fuel : nat) (evs : list event) (w : world) (st : status), exec_from fuel g (init_world g) evs = (w, st) -> emits_only evs -> length (sts w) = length g /\ (forall e : entry, In e (log w) -> is_down g (e_src e) (e_dst e) = true).
+Proof. exact (@exec_calls_along_edges_any_graph). Qed.
+End G_exec_calls_along_edges_any_graph.
+Print Assumptions C01_exec_calls_along_edges_any_graph.
+Section G_exec_state_fold_flush_any_graph.
+Import SZ.Sync.RefCount.
+Import SZ.Sync.Feedback.
+Theorem C01_exec_state_fold_flush_any_graph : forall (g : graph) (fuel : nat) (evs : list event) (w : world) (st : status), exec_from fuel g (init_world g) evs = (w, st) -> forall d : nat, d < length g -> state_first (nkind (gnode g d)) -> nst w d = fold_stim (nkind (gnode g d)) (init_st g d) (stims_from fuel g (init_world g) evs d).
+Proof. exact (@exec_state_fold_flush_any_graph). Qed.
+End G_exec_state_fold_flush_any_graph.
+Print Assumptions C01_exec_state_fold_flush_any_graph.
+Section G_single_emit_ok.
+Import SZ.Sync.RefCount.
+Import SZ.Sync.Feedback.
+Theorem C01_single_emit_ok : forall k : kind, single_emit_kindb k = true -> single_emit k.
+Proof. exact (@single_emit_ok). Qed.
+End G_single_emit_ok.
+Print Assumptions C01_single_emit_ok.
+Section G_push_first_edge_any_graph.
+Import SZ.Sync.RefCount.
+Import SZ.Sync.Feedback.
+Theorem C01_push_first_edge_any_graph : forall (g : list node) (u d0 : nat) (rest : list nat), u < length g -> state_first (nkind (gnode g u)) -> single_emit (nkind (gnode g u)) -> sdowns g u = d0 :: rest -> (forall d : nat, In d (sdowns g u) -> permanent g d = true) -> forall (fuel depth n : nat) (w : world) (x : val) (m : list mdi) (w' : world) (st : status), WF g w -> push fuel g depth n w x m = (w', st) -> st <> SFuel -> exists new : list entry, log w' = rev new ++ log w /\ WF g w' /\ edge new u d0 = (if n =? u then [(x, m)] else []) ++ fold_outs (nkind (gnode g u)) (nst w u) (arr g new u).
+Proof. exact (@push_first_edge_any_graph). Qed.
+End G_push_first_edge_any_graph.
+Print Assumptions C01_push_first_edge_any_graph.
+Section G_exec_first_edge_any_graph.
+Import SZ.Sync.RefCount.
+Import SZ.Sync.Feedback.
+Theorem C01_exec_first_edge_any_graph : forall (g : list node) (u d0 : nat) (rest : list nat) (fuel : nat) (evs : list event) (w : world) (st : status), u < length g -> state_first (nkind (gnode g u)) -> single_emit (nkind (gnode g u)) -> sdowns g u = d0 :: rest -> (forall d : nat, In d (sdowns g u) -> permanent g d = true) -> emits_only evs -> (forall e : event, In e evs -> match e with | EEmit n _ _ => n <> u | EFlush _ => True end) -> exec_from fuel g (init_world g) evs = (w, st) -> st <> SFuel -> edge (rev (log w)) u d0 = fold_outs (nkind (gnode g u)) (init_st g u) (arr g (rev (log w)) u).
+Proof. exact (@exec_first_edge_any_graph). Qed.
+End G_exec_first_edge_any_graph.
+Print Assumptions C01_exec_first_edge_any_graph.
+Section G_first_edge_needs_fuel.
+Import SZ.Sync.RefCount.
+Import SZ.Sync.Feedback.
+Theorem C01_first_edge_needs_fuel : exists w' : world, push 2 fb_g 0 0 (init_world fb_g) (VInt 1) [] = (w', SFuel) /\ edge (rev (log w')) 2 3 = [] /\ fold_outs (nkind (gnode fb_g 2)) (init_st fb_g 2) (arr fb_g (rev (log w')) 2) = [(VInt 1, [])] /\ st_acc (nst w' 2) = Some (VInt 1).
+Proof. exact (@first_edge_needs_fuel). Qed.
+End G_first_edge_needs_fuel.
+Print Assumptions C01_first_edge_needs_fuel.
 (* ---- generated by harness/mkprops_sync.py: end ---- *)
